@@ -67,7 +67,10 @@ func pruneTables(db objects.Store, survivingCommits [][]byte, allBlockKeys, allB
 				return err
 			}
 			i := sort.Search(len(tableHashes), func(i int) bool { return string(tableHashes[i]) >= string(commit.Table) })
-			tableFound[i] = true
+			// a shallow commit's table was never fetched: it is not among the stored tables
+			if i < len(tableHashes) && string(tableHashes[i]) == string(commit.Table) {
+				tableFound[i] = true
+			}
 		}
 		for i, keep := range tableFound {
 			sum := tableHashes[i]
